@@ -75,7 +75,8 @@ theorem native_reentry_costs {s s' : St} {k : Kind} (h : step s (.enter k) = .ok
   exact ⟨h2, cost_table.2.2.2.2.2 k, h3, by simp [h4]⟩
 
 example : step (init 500) (.enter .macroCall) =
-    .ok { limit := 500, cur := ⟨5, 2⟩, acts := [⟨.macroCall, ⟨0, 1⟩, 2⟩] } := by decide
+    .ok { limit := 500, cur := ⟨1 + macroRecursionCost, 2⟩, acts := [⟨.macroCall, ⟨0, 1⟩, 2⟩] } := by
+  decide
 
 /-- a macro's fresh context inherits the caller's depth: it starts at caller depth +
     `MACRO_RECURSION_COST` + its own two frames -/
@@ -89,7 +90,7 @@ theorem macro_ctx_inherits_depth {s s' : St} (h : step s (.enter .macroCall) = .
   omega
 
 example : step ⟨500, ⟨20, 3⟩, []⟩ (.enter .macroCall) =
-    .ok ⟨500, ⟨27, 2⟩, [⟨.macroCall, ⟨20, 3⟩, 2⟩]⟩ := by decide
+    .ok ⟨500, ⟨23 + macroRecursionCost, 2⟩, [⟨.macroCall, ⟨20, 3⟩, 2⟩]⟩ := by decide
 
 /-- the nested interpreter's return restores the caller's context exactly and cannot panic
     (`decr_depth` does not underflow, `pop_frame` finds its frame, `restore_stack_depth`'s
@@ -120,8 +121,10 @@ theorem weighted_nesting {L : Nat} {s : St} (h : Reach L s) :
     simp only [wsum] at hw ⊢
     omega
 
-example : ∃ s, Reach 100 s ∧ s.acts.length = 3 ∧ wsum s.acts = 17 :=
-  ⟨⟨100, ⟨16, 2⟩, [⟨.macroCall, ⟨10, 2⟩, 2⟩, ⟨.includeTpl, ⟨0, 2⟩, 2⟩, ⟨.blockCall, ⟨0, 1⟩, 2⟩]⟩,
+example : ∃ s, Reach 500 s ∧ s.acts.length = 3 ∧
+    wsum s.acts = (macroRecursionCost + 2) + includeRecursionCost + 1 :=
+  ⟨⟨500, ⟨includeRecursionCost + 2 + macroRecursionCost, 2⟩,
+      [⟨.macroCall, ⟨includeRecursionCost, 2⟩, 2⟩, ⟨.includeTpl, ⟨0, 2⟩, 2⟩, ⟨.blockCall, ⟨0, 1⟩, 2⟩]⟩,
     reach_run Reach.init
       (evs := [.enter .blockCall, .enter .includeTpl, .enter .macroCall]) (by decide),
     rfl, by decide⟩
@@ -228,7 +231,7 @@ theorem unbounded_recursion_errors (L : Nat) (evs : List Ev) (hp : max L 1 ≤ p
 
 example : run (init 10) (List.replicate 10 (.enter .blockCall)) = .recursionError := by decide
 example : run (init 10) (List.replicate 9 (.enter .blockCall)) ≠ .recursionError := by decide
-example : run (init 500) (List.replicate 84 (.enter .macroCall)) = .recursionError := by
+example : run (init 500) (List.replicate 500 (.enter .macroCall)) = .recursionError := by
   decide +kernel
 
 /-- the accounting part of C11, all at once -/
